@@ -84,7 +84,7 @@ func crashConfigs(kind string) []aofCfg {
 func crashPlans(check, tier string) []crashPlan {
 	switch check {
 	case "C02":
-		alpha := []string{"w1", "w2", "df", "s1", "s0", "t2", "ts", "p", "n"}
+		alpha := []string{"w1", "w2", "df", "s1", "s0", "t2", "ts", "p", "n", "tp", "wn"}
 		if tier == "thorough" {
 			return []crashPlan{
 				{alpha, 3, crashConfigs(""), 1, 1, 1, []string{"s0"}, false},
@@ -104,6 +104,8 @@ func crashPlans(check, tier string) []crashPlan {
 			// argument shapes (empty string, binary bytes): offsets are byte counts of what was decoded
 			{[]string{"we", "t3", "w1"}, 2, crashConfigs(""), 0, 0, 1, []string{"s0"}, true},
 			{[]string{"w1", "df", "s1", "s0", "t2", "ts", "p"}, 2, crashConfigs(""), 1, 1, 1, []string{"s0"}, false},
+			// transactions whose members the key filter removes (one / all), a nil reply from the target
+			{[]string{"tp", "tf", "wn", "w1"}, 2, crashConfigs(""), 1, 1, 1, []string{"s0"}, false},
 			{[]string{"w1", "s1", "t2", "p"}, 3, crashConfigs(""), 0, 0, 1, []string{"s0"}, false},
 		}
 	case "C07":
@@ -123,7 +125,7 @@ func crashPlans(check, tier string) []crashPlan {
 			{[]string{"pr", "w1", "t1", "p"}, 2, crashConfigs("probe"), 1, 2, 1, []string{"s0"}, false},
 		}
 	case "C09":
-		alpha := []string{"t1", "t2", "t3", "ts", "w1", "s1"}
+		alpha := []string{"t1", "t2", "t3", "ts", "w1", "s1", "tp", "tf"}
 		if tier == "thorough" {
 			return []crashPlan{
 				{alpha, 3, crashConfigs("txn-all"), 1, 1, 1, []string{"s0"}, false},
@@ -235,6 +237,33 @@ func runCrashCheck(t *testing.T, rep *mc.Reporter, check string, oracle func(scn
 			}
 		})
 		runFam("rekey", rk, 0)
+	}
+	if fam == "" || fam == "soft" {
+		// ---- family "soft": in-process reconnections - after an orderly stop the SAME RedisOutput is asked for
+		// its start point and sent the stream again (what RedisInput.Run does when the source link drops);
+		// No crashes.
+		var soft []crashScenario
+		softCfgs := []aofCfg{
+			{Txn: true, Resume: true, Pipeline: false, Count: 2, Bytes: 1 << 20, DbMode: "id"},
+			{Txn: true, Resume: true, Pipeline: true, Count: 64, Bytes: 1 << 20, DbMode: "map12"},
+			{Txn: false, Resume: true, Pipeline: true, Count: 2, Bytes: 1 << 20, DbMode: "id"},
+			{Txn: false, Resume: true, Pipeline: false, Count: 2, Bytes: 1 << 20, DbMode: "map12"},
+		}
+		// (with resuming switched off the position lives in memory only and a process restart has none: what an
+		// in-process reconnection does then is a statement about reconnections - C06 - not about restarts)
+		if check == "C09" {
+			softCfgs = softCfgs[:2]
+		}
+		L, mcr := 2, 1
+		if tier == "thorough" {
+			L, mcr = 3, 2
+		}
+		enumSeqs(map[string][]string{"C02": {"w1", "s1", "t2", "p"}, "C07": {"w1", "s1", "t1", "p"}, "C09": {"t2", "t3", "w1", "s1"}}[check], L, func(seq []string) {
+			for _, cfg := range softCfgs {
+				soft = append(soft, crashScenario{Syms: append([]string{"s0"}, seq...), Cfg: cfg, Max: 1, MaxCrashes: mcr, Stops: true, Soft: true})
+			}
+		})
+		runFam("soft", soft, 1)
 	}
 	if fam == "" || fam == "stop" || fam == "kill" || fam == "big" {
 		thorough := tier == "thorough"
